@@ -60,6 +60,14 @@ theorem clean_boolOp2 {op : BoolOpK} {a b : Expr} (h : Clean (.boolOp op [a, b])
   | boolOp2 _ _ _ h1 h2 => exact ⟨h1, h2⟩
   | other _ h => simp [isGlue, isGlue'] at h
 
+theorem clean_call1 {f e : Expr} (hg : isGlue (.call f [e] []) = true) (h : Clean (.call f [e] [])) : Clean e := by
+  cases h with
+  | call _ _ _ _ h => exact h e (by simp)
+  | other _ h => rw [hg] at h; cases h
+
+theorem isGlue_tupleCall (e : Expr) : isGlue (.call (.name "tuple") [e] []) = true := by simp [isGlue, isGlue']
+theorem isGlue_listCall (e : Expr) : isGlue (.call (.name "list") [e] []) = true := by simp [isGlue, isGlue']
+
 theorem clean_chain {f a : Expr} (hc : isChain (.call f [a] []) = true) (h : Clean (.call f [a] [])) : Clean f ∧ Clean a := by
   cases h with
   | call _ _ _ hf h => exact ⟨hf, h a (by simp)⟩
@@ -82,10 +90,20 @@ mutual
     | _, _, _, _, _, _, .attr o a h hg, hc =>
         have ih := frame W h (clean_attr hc)
         ⟨ih.1, fun t2 => .attr o a (ih.2 t2) hg⟩
-    | _, _, _, _, _, _, .sub o i h1 h2 hg, hc => by
+    | _, _, _, _, _, _, .sub o i hns h1 h2 hg, hc => by
         have ih1 := frame W h1 (clean_sub hc).1
         have ih2 := frame W h2 (clean_sub hc).2
-        exact ⟨ih2.1.trans ih1.1, fun t2 => .sub o i (ih1.2 t2) (ih2.2 t2) hg⟩
+        exact ⟨ih2.1.trans ih1.1, fun t2 => .sub o i hns (ih1.2 t2) (ih2.2 t2) hg⟩
+    | _, _, _, _, _, _, .subSlice o a b c h1 hg, hc =>
+        have ih1 := frame W h1 (clean_sub hc).1
+        ⟨ih1.1, fun t2 => .subSlice o a b c (ih1.2 t2) hg⟩
+    | _, _, _, _, _, _, .negInt n u t, _ => ⟨rfl, fun t2 => .negInt n u t2⟩
+    | _, _, _, _, _, _, .tupleCall e h1 hi, hc =>
+        have ih1 := frame W h1 (clean_call1 (isGlue_tupleCall e) hc)
+        ⟨ih1.1, fun t2 => .tupleCall e (ih1.2 t2) hi⟩
+    | _, _, _, _, _, _, .listCall e h1 hi, hc =>
+        have ih1 := frame W h1 (clean_call1 (isGlue_listCall e) hc)
+        ⟨ih1.1, fun t2 => .listCall e (ih1.2 t2) hi⟩
     | _, _, _, _, _, _, .setattr o a e h1 h2 hg, hc => by
         have ih1 := frame W h1 (clean_setattr hc).1
         have ih2 := frame W h2 (clean_setattr hc).2
